@@ -9,12 +9,12 @@ claimed = {
    tech="contract-based deductive verification: own VC generator over go/ssa + z3/cvc5",
    ref="DESIGN.md section 4 (C17)"),
  "C01": dict(
-   text="Deductive proof of the writer-side host table (hostGroup.add/pop/popN: index of the added host, earlier entries unchanged, table length a multiple of the address size, undo removes whole hosts) with contracts on the real methods; further parts of the index format (section layout, packet records, varints, lookups) are added as contracts reach them and are listed per run in the evidence under functions_under_contract. Parts of the property not under contract are not decided by this check.",
-   note="Trusted: go/ssa translation, gvc memory model, bytes.Equal contract (assumed: equal iff same length and bytes), SMT solvers. Not covered yet: reader side, payload/segmentation encoding, lookup sections, file I/O.",
+   text="Deductive proof of the writer-side host table (hostGroup.add/pop/popN: index of the added host, earlier entries unchanged, table length a multiple of the address size, undo removes whole hosts) with contracts on the real methods; and of the four comparators that order the lookup tables (the first-packet-source order by file name, then import offset plus packet index, in bit-vector arithmetic). BOUNDED (stand-in, not counted as proved): the rest of the format and the whole reader - streams written with the real Writer and read back with the real Reader (roundtrip stand-in). Known finding: packet times after a silence of 2^32 microseconds inside one stream.",
+   note="Trusted: go/ssa translation, gvc memory model, bytes.Equal contract (assumed: equal iff same length and bytes), SMT solvers. Reader side, payload/segmentation encoding and lookup sections are only covered by the bounded stand-in.",
    tech="contract-based deductive verification: own VC generator over go/ssa + z3/cvc5",
    ref="DESIGN.md section 4 (C01)"),
  "C07": dict(
-   text="Deductive proof of the reference-time re-basing that makes merged and re-based index files keep every stream's absolute first/last packet time: region contracts on the real code of Writer.AddIndex (from the computation of the new reference second to the return) and Writer.AddStream (the re-basing step), with loop invariants over all streams and 64-bit wrap-around arithmetic as bit-vectors; the same shift is applied to first and last packet time, old streams are shifted by (old reference - new reference), copied streams by (reader reference - new reference), and the new reference second never exceeds the old one. The undo of remapped hosts relies on the host-table contracts proved under C01. Other parts of the property (payload copy, newest-wins skipping, the manager's splice) are added as contracts reach them; what is under contract is listed per run in the evidence.",
+   text="Deductive proof of the reference-time re-basing that makes merged and re-based index files keep every stream's absolute first/last packet time: region contracts on the real code of Writer.AddIndex (from the computation of the new reference second to the return) and Writer.AddStream (the re-basing step), with loop invariants over all streams and 64-bit wrap-around arithmetic as bit-vectors; the same shift is applied to first and last packet time, old streams are shifted by (old reference - new reference), copied streams by (reader reference - new reference), and the new reference second never exceeds the old one. The undo of remapped hosts relies on the host-table contracts proved under C01. The manager's splice of merged files is proved (order of the index list). BOUNDED (stand-in, not counted as proved): merging as a whole - groups of index files with newer versions of some streams are merged and must return the newest version of every stream exactly as written (merge-roundtrip stand-in).",
    note="Assumed: contracts of package time on whole seconds (time.Unix, Time.Add, Time.Unix, Time.Sub, Duration.Nanoseconds: listed in the evidence as assumed), region assumptions (facts established by the code before the region, e.g. streamCountBefore <= len(streams)), run-time checks inside the two large functions are assumed to pass (nosafety). Search-result equality and file I/O are not covered.",
    tech="contract-based deductive verification: region contracts + loop invariants, own VC generator over go/ssa + z3/cvc5",
    ref="DESIGN.md section 4 (C07)"),
